@@ -174,16 +174,21 @@ def finish(prop, tier, seed, reg, repo, results, extra, t0):
     if bounded:
         for s in bounded.get("standins", []):
             for f in s.get("failures", []):
-                k = match_known(prop, "bounded/" + s["name"], f, known)
+                oname = "bounded/" + s["name"] + ("#" + f["tag"] if f.get("tag") else "")
+                k = match_known(prop, oname, f, known)
                 if k is not None:
-                    known_hits.append(("bounded/" + s["name"], k))
+                    known_hits.append((oname, k))
                     continue
                 path = VERIF / "replay" / f"{prop}_bounded_{hashlib.sha1(json.dumps(f, default=str).encode()).hexdigest()[:10]}.json"
                 json.dump({"property": prop, "bounded_standin": s["name"], "failure": f}, open(path, "w"), indent=1,
                           default=str)
                 bounded_fail.append((s["name"], path))
 
+    printed = set()
     for n, k in known_hits:
+        if id(k) in printed:
+            continue
+        printed.add(id(k))
         print(f"KNOWN-FINDING: property={prop} {k['what']} [obligation {n}]")
     for r in undecided_funcs:
         print(f"UNDECIDED function={r['key']} reason={r['reason'][:200]}")
